@@ -83,6 +83,10 @@ def dbStateString (s : Int) : String :=
 
 def walLevelNames : List String := ["minimal", "replica", "logical"]
 
+/-- `if walLevel >= 0 && walLevel < len(walLevelNames) { cf.WALLevel = walLevelNames[walLevel] }` (else "");
+`walLevel` is `int(uint32)`, never negative -/
+def walLevelName (n : Nat) : String := if n < walLevelNames.length then walLevelNames.getD n "" else ""
+
 /-- inferPGVersion -/
 def inferPGVersion (controlVersion catalogVersion : Nat) : Nat :=
   if controlVersion ≥ 1300 then (if catalogVersion ≥ 202307071 then 16 else 15)
@@ -175,7 +179,7 @@ def parseControlFile (data : Bytes) : M (Option ControlFile) := do
   let oldestActiveXID ← uN 4 data 120
   -- settings: constant offsets (PostgreSQL 12–16)
   let walLevelN ← uN 4 data 172
-  let walLevel := if walLevelN < walLevelNames.length then walLevelNames.getD walLevelN "" else ""
+  let walLevel := walLevelName walLevelN
   let walLogHints := (← uN 1 data 176) != 0
   let maxConnections := toSigned 32 (← uN 4 data 180)
   let maxWorkerProcesses := toSigned 32 (← uN 4 data 184)
